@@ -2,6 +2,8 @@ SPECIFICATION Spec
 CONSTANTS
   Deviations <- RealDevs
   Menu <- MenuAll
+  VarMenu <- VarThorough
+  VarVersions <- AllVersions
   MultiMenu <- MultiThorough
   TripleMenu <- TripleThorough
   MaxItems = 3
